@@ -54,6 +54,20 @@ CHECKS = {
              "replayed again with an identity custom coercer (whose result is type-checked, so it must equal strict mode).",
         design_ref="7 C14", technique="TLA+ coercion table in the reference semantics, TLC invariant + replay (coerce=True, custom coercer)",
         note=DESER_NOTE),
+    "C09": dict(
+        category="model_checking",
+        text="spec/Cache.tla: configuration knobs (every settings attribute, every registry of the sensitive classes) with "
+             "one Mutate action per code mechanism, Observe / Hold / CallHeld / ResetAll. TLC checks NoStale and "
+             "NeverObservedStale over every history up to length 3 (cache a function of cfg, history hidden by a VIEW) "
+             "and requires each non-resetting mechanism of the pinned tree and the Union-key conflation to violate them "
+             "(negative checks). spec->code: the histories TLC enumerates (observe-mutate-observe exhaustively, sampled "
+             "others, random ones of length 16) run in forked interpreters over a concrete pool of 36 knobs x 22 "
+             "observations; every observation is compared with a cold start (fresh interpreter replaying only the "
+             "configuration). code->spec: each run logs whether cache.reset() was called per operation and whether each "
+             "observation was fresh; a TLC trace spec steps the model with it.",
+        design_ref="7 C09", technique="TLA+ state machine over histories, TLC exhaustive + negative checks, forked-interpreter replay vs cold start, trace validation",
+        note="Abstract artefact = dependency projection; dependencies measured by first-order toggling in cold starts; "
+             "value-level comparison is real-vs-real (same interpreter binary, fresh process)."),
     "C10": dict(
         category="model_checking",
         text="spec/Validators.tla is a state machine at the grain of ObjectMethod.deserialize + validate() (field loop, "
